@@ -14,6 +14,10 @@ unlink) is a numbered step of the current simulator op, observable by a hook
                  of a buffered writer looks like); on a non-write call it is
                  the same as enospc, so that every op list stays executable
 
+A write error is sticky for that file: the flush a buffered writer retries at
+close() fails with the same errno and the buffered data is lost (a full disk
+does not heal within one write_safe call).
+
 After a crash (and after the patched `utils.sys_exit`) the seam is *dead*: the
 process no longer exists, so everything Python still runs while the exception
 unwinds (`finally:` clean-ups, `with` exits, buffered data) must not reach
